@@ -11,6 +11,7 @@ the failing run saw, without Hypothesis.
 from __future__ import annotations
 
 import collections
+import enum
 import json
 import math
 import types
@@ -68,6 +69,12 @@ class MyMap(collections.abc.Mapping):
 
 def enc(o: t.Any) -> t.Any:
     """Python case data -> JSON-able."""
+    from . import usertypes
+    if isinstance(o, enum.Enum) and type(o).__name__ in usertypes.ENUMS:
+        return {'$e': [type(o).__name__, o.name]}
+    if type(o) in usertypes.SUBCLASSES.values():
+        base = next(b for (b, c) in usertypes.SUBCLASSES.items() if c is type(o))
+        return {'$u': [base, enc({'int': int, 'float': float, 'str': str, 'bytes': bytes}[base](o))]}
     if o is None or isinstance(o, (bool, str)):
         return o
     if isinstance(o, int):
@@ -115,6 +122,12 @@ def dec(j: t.Any) -> t.Any:
         return [dec(x) for x in j]
     if isinstance(j, dict):
         (k, v), = j.items()
+        if k == '$e':
+            from . import usertypes
+            return usertypes.ENUMS[v[0]][v[1]]
+        if k == '$u':
+            from . import usertypes
+            return usertypes.SUBCLASSES[v[0]](dec(v[1]))
         if k == '$f':
             return float(v)
         if k == '$c':
